@@ -233,7 +233,7 @@ def c_fasta_edit(rng):
             hist.append(["del", h])
         else:
             ops.append(f"fa_get {es(h)}")
-    ops += ["fa_items", "fa_reread"]
+    ops += ["fa_poke", "fa_items", "fa_reread"]
     return {"kind": "fasta_edit", "ops": ops, "spec": {"o": "fasta", "cpl": cpl, "hist": hist}}
 
 
@@ -307,7 +307,7 @@ def c_fastq_edit(rng):
             hist.append(["del", h])
         else:
             ops.append(f"fq_get {es(h)}")
-    ops += ["fq_items", "fq_reread"]
+    ops += ["fq_poke", "fq_items", "fq_reread"]
     return {"kind": "fastq_edit", "ops": ops, "spec": {"o": "fastq", "off": off, "cpl": cpl, "hist": hist}}
 
 
@@ -408,6 +408,8 @@ def g_gff_entry(rng, valid=True):
         attrs[k] = v
     if rng.random() < 0.5:
         attrs = {"ID": "f" + str(rng.randint(0, 9)), **attrs}
+    if rng.random() < 0.25:
+        attrs = rng.choice([{"ID": "cds1", "product": "some protein"}, {"ID": "m1"}, {"Parent": "g", "note": "x y"}])   # shared by several entries
     score = rng.choice([None, None, 1.0, 0.5, 1e-30, 12345.678])
     strand = rng.choice(["+", "-", "."])
     phase = rng.choice([None, 0, 1, 2])
@@ -482,8 +484,8 @@ def c_gff_edit(rng):
             ops.append(f"gff_directive {es(d)} {es(d + ' ' + ' '.join(args))}")
             hist.append(["directive", d, args])
         else:
-            ops.append(f"gff_get {rng.randint(-n - 1, n)}")
-    ops.append("gff_reread")
+            ops.append(rng.choice([f"gff_get {rng.randint(-n - 1, n)}", "gff_poke"]))
+    ops += ["gff_poke", "gff_reread"]
     return {"kind": "gff_edit", "ops": ops, "spec": {"o": "gff_hist", "hist": hist}}
 
 
@@ -617,7 +619,7 @@ def c_gff_edit_dir(rng):
             ops.append(f"gff_del {i}"); hist.append(["del", i]); n -= 1
         else:
             direc()
-    ops.append("gff_reread")
+    ops += ["gff_poke", "gff_reread"]
     return {"kind": "gff_edit", "ops": ops, "spec": {"o": "gff_hist", "hist": hist}}
 
 
@@ -680,8 +682,8 @@ def c_gb_edit(rng):
             if -n <= i < n:
                 n -= 1
         else:
-            ops.append(f"gb_get {rng.randint(-n, n)}")
-    ops.append("gb_reread")
+            ops.append(rng.choice([f"gb_get {rng.randint(-n, n)}", "gb_poke"]))
+    ops += ["gb_poke", "gb_reread"]
     return {"kind": "gb_edit", "ops": ops, "spec": {"o": "gb_hist", "hist": hist}}
 
 
@@ -793,7 +795,12 @@ def corpus():
                                         f"gff_insert 1 {safe} {enc_entry(e1)}", "gff_del 0", "gff_reread"],
             "spec": {"o": "gff_hist", "hist": [["append", e1], ["directive", "sequence-region", ["chr1", "1", "99"]], ["append", e2], ["directive", "note", []],
                                                 ["insert", 0, e2], ["insert", 1, e1], ["del", 0]]}}
-    return mult + [dirs] + [
+    at = {"ID": "cds1", "product": "some protein"}
+    c1 = ["chr1", "demo", "CDS", 10, 50, None, "+", 0, at]
+    c2 = ["chr1", "demo", "CDS", 80, 120, None, "+", 1, at]
+    shared = {"kind": "gff_edit", "ops": ["gff_new", f"gff_append {safe} {enc_entry(c1)}", f"gff_append {safe} {enc_entry(c2)}", "gff_poke", "gff_get 1", "gff_reread"],
+              "spec": {"o": "gff_hist", "hist": [["append", c1], ["append", c2]]}}
+    return mult + [dirs, shared] + [
         # what the qualifier syntax cannot express (C12_qualifiers_quote_inexpressible): model == real code, no oracle claim
         {"kind": "gbf_rt", "ops": ["gbf_rt " + enc_feat(inexpr[0]), "gbf_rt " + enc_feat(inexpr[1])]},
         {"kind": "org_print", "ops": [f"org_print -5 {es('ACGTACGTACGT')}", f"org_print 1 {es('')}", f"org_print 999999999 {es('ACGT' * 31)}"],
@@ -944,6 +951,52 @@ def _gb_line_op(k, w):
     return f"ok {a} {es(gbs._field_to_seq_string(lines))}"
 
 
+def _scramble(obj, depth=0):
+    """mutate, in place, every mutable object reachable from what a file object handed out (or was given)"""
+    import numpy as np
+    if depth > 4:
+        return
+    if isinstance(obj, dict):
+        for k in list(obj):
+            _scramble(obj[k], depth + 1)
+            if isinstance(obj[k], str) or obj[k] is None:
+                obj[k] = "edited-by-caller"
+        obj["added-by-caller"] = "x"
+        first = next(iter(obj))
+        if first != "added-by-caller":
+            del obj[first]
+    elif isinstance(obj, list):
+        for x in obj:
+            _scramble(x, depth + 1)
+        for i, x in enumerate(obj):
+            if isinstance(x, str):
+                obj[i] = "edited-by-caller"
+        obj.append("added-by-caller")
+    elif isinstance(obj, np.ndarray):
+        if obj.flags.writeable and obj.size:
+            obj += 1
+    elif isinstance(obj, tuple):
+        for x in obj:
+            _scramble(x, depth + 1)
+
+
+def _poke(f):
+    """the caller edits its own copies of everything the file object hands out"""
+    handed = []
+    try:
+        handed.append([f[i] for i in range(len(f))])            # list-like files (GFF, GenBank)
+    except Exception:  # noqa: BLE001
+        pass
+    try:
+        handed.append(list(f.items()))                           # mapping-like files (FASTA, FASTQ)
+    except Exception:  # noqa: BLE001
+        pass
+    if hasattr(f, "directives"):
+        handed.append(f.directives())
+    for h in handed:
+        _scramble(h)
+
+
 def run_impl(case):
     with warnings.catch_warnings():
         warnings.simplefilter("ignore")
@@ -962,6 +1015,7 @@ def _run_impl(case):
 
     st = None
     out = []
+    inputs = []       # mutable objects handed to the file object by the "caller"; `*_poke` edits them afterwards
     for op in case["ops"]:
         w = op.split(" ")
         k = w[0]
@@ -975,6 +1029,11 @@ def _run_impl(case):
             elif k == "fa_read":
                 st = FastaFile.read(io.StringIO("\n".join(dl(w[2])) + "\n"), int(w[1])) if dl(w[2]) else FastaFile.read(io.StringIO("\n"), int(w[1]))
                 out.append(_fa_state(st))
+            elif k in ("fa_poke", "fq_poke", "gff_poke", "gb_poke"):
+                _poke(st)
+                for a in inputs:
+                    _scramble(a)
+                out.append({"fa": _fa_state, "fq": _fq_state, "gff": _gff_state, "gb": _gb_state}[k.split("_")[0]](st))
             elif k == "fa_reread":
                 st = _reread(FastaFile, st, st._chars_per_line); out.append(_fa_state(st))
             elif k == "fa_set":
@@ -1061,11 +1120,11 @@ def _run_impl(case):
             elif k == "gff_reread":
                 st = _reread(GFFFile, st); out.append(_gff_state(st))
             elif k == "gff_append":
-                st.append(*_dec_entry(w[2:])); out.append(_gff_state(st))
+                t_in = _dec_entry(w[2:]); inputs.append(t_in[8]); st.append(*t_in); out.append(_gff_state(st))
             elif k == "gff_insert":
-                st.insert(int(w[1]), *_dec_entry(w[3:])); out.append(_gff_state(st))
+                t_in = _dec_entry(w[3:]); inputs.append(t_in[8]); st.insert(int(w[1]), *t_in); out.append(_gff_state(st))
             elif k == "gff_set":
-                st[int(w[1])] = _dec_entry(w[3:]); out.append(_gff_state(st))
+                t_in = _dec_entry(w[3:]); inputs.append(t_in[8]); st[int(w[1])] = t_in; out.append(_gff_state(st))
             elif k == "gff_del":
                 del st[int(w[1])]; out.append(_gff_state(st))
             elif k == "gff_directive":
@@ -1081,13 +1140,13 @@ def _run_impl(case):
             elif k == "gb_reread":
                 st = _reread(GenBankFile, st); out.append(_gb_state(st))
             elif k == "gb_set":
-                st[int(w[1])] = (ds(w[2]), dl(w[3]), dsubs(w[4])); out.append(_gb_state(st))
+                c_in, s_in = dl(w[3]), dsubs(w[4]); inputs.extend([c_in, s_in]); st[int(w[1])] = (ds(w[2]), c_in, s_in); out.append(_gb_state(st))
             elif k == "gb_insert":
-                st.insert(int(w[1]), ds(w[2]), dl(w[3]), dsubs(w[4])); out.append(_gb_state(st))
+                c_in, s_in = dl(w[3]), dsubs(w[4]); inputs.extend([c_in, s_in]); st.insert(int(w[1]), ds(w[2]), c_in, s_in); out.append(_gb_state(st))
             elif k == "gb_append":
-                st.append(ds(w[1]), dl(w[2]), dsubs(w[3])); out.append(_gb_state(st))
+                c_in, s_in = dl(w[2]), dsubs(w[3]); inputs.extend([c_in, s_in]); st.append(ds(w[1]), c_in, s_in); out.append(_gb_state(st))
             elif k == "gb_setfield":
-                st.set_field(ds(w[1]), dl(w[2]), dsubs(w[3])); out.append(_gb_state(st))
+                c_in, s_in = dl(w[2]), dsubs(w[3]); inputs.extend([c_in, s_in]); st.set_field(ds(w[1]), c_in, s_in); out.append(_gb_state(st))
             elif k == "gb_del":
                 del st[int(w[1])]; out.append(_gb_state(st))
             elif k == "gb_get":
@@ -1102,6 +1161,58 @@ def _run_impl(case):
 # ------------------------------------------------------------------ property oracle (independent of the model)
 def _norm(h):
     return h.replace("\n", "").strip()
+
+
+def _snap(fmt, f):
+    """comparable deep copy of the parsed view + the text"""
+    import copy
+    if fmt == "gff":
+        return (copy.deepcopy([f[i] for i in range(len(f))]), copy.deepcopy(f.directives()), str(f))
+    if fmt == "genbank":
+        return (copy.deepcopy([f[i] for i in range(len(f))]), str(f))
+    if fmt == "fasta":
+        return (list(f.items()), str(f))
+    return ([(k, s, [int(x) for x in q]) for k, (s, q) in f.items()], str(f))
+
+
+def _alias_check(fmt, f, cls, read_args=(), inputs=()):
+    """The parsed view belongs to the file and follows its text only: a caller that edits the objects it got
+    from the file (entry tuples, attribute dicts, content lists, score arrays) or passed to it earlier changes
+    neither this file object, nor another object read from the same text."""
+    try:
+        before = _snap(fmt, f)
+    except Exception:  # noqa: BLE001  (unreadable entries are reported by the other checks)
+        return []
+    annot_before = None
+    if fmt == "gff":
+        import biotite.sequence.io.gff as gffmod
+        try:
+            annot_before = gffmod.get_annotation(f)
+        except Exception:  # noqa: BLE001
+            annot_before = None
+    _poke(f)
+    for a in inputs:
+        _scramble(a)
+    after = _snap(fmt, f)
+    if after != before:
+        what = "text" if after[-1] != before[-1] else "parsed view"
+        return [(f"C12/{fmt}/view-shares-caller-object", f"the caller edited objects it got from / gave to the file: the {what} changed from {str(before[0])[:160]} to {str(after[0])[:160]} (text unchanged: {after[-1] == before[-1]})")]
+    if not f.lines:
+        return []
+    try:
+        g = cls.read(io.StringIO(before[-1] + "\n"), *read_args)
+        fresh = _snap(fmt, g)
+    except Exception:  # noqa: BLE001
+        return []
+    if fresh[0] != before[0]:
+        return [(f"C12/{fmt}/view-shares-caller-object", f"a file freshly read from the same text reports {str(fresh[0])[:160]} instead of {str(before[0])[:160]} after the caller edited its copies")]
+    if annot_before is not None:
+        try:
+            if gffmod.get_annotation(g) != annot_before:
+                return [(f"C12/{fmt}/view-shares-caller-object", "get_annotation() of a freshly read file differs after the caller edited its copies")]
+        except Exception:  # noqa: BLE001
+            pass
+    return []
 
 
 def _o_fasta(spec):
@@ -1161,7 +1272,7 @@ def _o_fasta(spec):
         it = list(FastaFile.read(io.StringIO(buf.getvalue())).items())
         if it != list(ref.items()):
             v.append(("C12/fasta/write_iter-roundtrip", f"{it[:3]} vs {list(ref.items())[:3]}"))
-    return v
+    return v + (_alias_check("fasta", f, FastaFile, (spec["cpl"],)) if not v else [])
 
 
 def _o_fasta_text(spec):
@@ -1259,7 +1370,7 @@ def _o_fastq(spec):
         it = canon(FastqFile.read(io.StringIO(buf.getvalue()), off).items())
         if it != exp:
             v.append(("C12/fastq/write_iter-roundtrip", f"{it[:2]} vs {exp[:2]}"))
-    return v
+    return v + (_alias_check("fastq", f, FastqFile, (off, cpl)) if not v else [])
 
 
 def _o_fastq_text(spec):
@@ -1350,7 +1461,7 @@ def _o_genbank(spec):
     # the file object used as a list of fields stays consistent
     if [f[i] for i in range(len(f))] != [x for x in (lambda g: [g[i] for i in range(len(g))])(_reread(gb.GenBankFile, f))]:
         v.append(("C12/genbank/edit/view-differs-from-text", "fields of the edited object differ from a re-read"))
-    return v
+    return v + (_alias_check("genbank", f, gb.GenBankFile) if not v else [])
 
 
 def _o_gff_annot(spec):
@@ -1368,7 +1479,7 @@ def _o_gff_annot(spec):
         elif lost and all(any(val != val.rstrip() for val in list(x.qual.values())[-1:]) for x in lost):
             key = "C12/gff/last-attribute-trailing-blank"
         return [(key, f"lost {[(x.key, x.qual) for x in lost][:2]} got {[(x.key, x.qual) for x in extra][:2]}")]
-    return []
+    return _alias_check("gff", f, gff.GFFFile)
 
 
 def _entry_tuple(e):
@@ -1403,7 +1514,7 @@ def _o_gff_entries(spec):
         elif any(y[0].startswith("#") for y in exp):
             key = "C12/gff/seqid-starting-with-hash-becomes-comment"
         return [(key, f"wrote {exp[:2]} read {got[:2]}")]
-    return []
+    return _alias_check("gff", g, gff.GFFFile) + _alias_check("gff", f, gff.GFFFile)
 
 
 def _o_gff_hist(spec):
@@ -1445,7 +1556,7 @@ def _o_gff_hist(spec):
         exp = [(t[0].strip(), t[1].strip(), t[2].strip()) + t[3:] for t in ref]
         if view != exp:
             return [("C12/gff/edit/differs-from-list-spec", f"after {step[0]}: {view[:2]} expected {exp[:2]}")]
-    return v
+    return v + _alias_check("gff", f, gff.GFFFile, (), [t[8] for t in ref])
 
 
 def _o_gb_hist(spec):
@@ -1496,7 +1607,7 @@ def _o_gb_hist(spec):
             return [(key, f"after {step[:2]}: {[x[0] for x in view]} vs re-read {[x[0] for x in back]}")]
         if view != ref:
             return [("C12/genbank/edit/differs-from-list-spec", f"after {step[:2]}: {view[:2]} expected {ref[:2]}")]
-    return []
+    return _alias_check("genbank", f, GenBankFile, (), [st[-2] for st in spec["hist"] if len(st) > 2] + [st[-1] for st in spec["hist"] if len(st) > 2])
 
 
 def _o_quote(spec):
